@@ -200,7 +200,9 @@ def history_case(ctx, drv, rng, i, n_sub):
 
 
 def _history_case(ctx, drv, rng, i, n_sub):
-    case = fp.gen_case(rng, i, n_samples=2)
+    # every fifth history runs on a fan-out model (one tensor feeding consumers with different parameters: several inserted operators on
+    # one tensor, so their derived names collide and get numbered) under that model's own per-consumer rules
+    case = fp.gen_fanout_case(rng, 2) if i % 5 == 4 else fp.gen_case(rng, i, n_samples=2)
     case.late = None
     mb = case.mb
     mb_before = bytes(mb)
@@ -212,6 +214,8 @@ def _history_case(ctx, drv, rng, i, n_sub):
     def fail(msg, key):
         ctx.fail(msg, {**replay, "history": log}, key)
     recipes = [pl.gen_recipe(rng, mb) for _ in range(3)] + [None]
+    if i % 5 == 4 and case.cmds:
+        recipes[0] = recipes[1] = [c for c in case.cmds if c.get("k") == "add"]
     last = None
     last_result = [None, None]
     # scripted prefixes that need a specific order to manifest, followed by random steps
@@ -224,6 +228,8 @@ def _history_case(ctx, drv, rng, i, n_sub):
     elif i % 4 == 2:
         # another config-check policy is in force while the object resolves rules, then the default one comes back
         script = ["load", "policy_example", "calibrate", "policy_default", "calibrate", "quantize"]
+    if i % 5 == 4 and case.cmds:
+        script = ["recipe_own", "calibrate", "quantize", "quantize"]    # the model's own per-consumer rules, two results from one object
     steps = script + [None] * rng.randint(2, 6)
     for forced in steps:
         k = 0 if forced else rng.choice([0, 0, 1])
@@ -252,7 +258,9 @@ def _history_case(ctx, drv, rng, i, n_sub):
             continue
         log.append((k, act))
         try:
-            if act == "recipe":
+            if act == "recipe_own":
+                pl.apply_recipe(q, recipes[0])
+            elif act == "recipe":
                 pl.apply_recipe(q, rng.choice(recipes[:3]))
             elif act == "load":
                 name, rec = rng.choice(pl.shipped_recipes())
